@@ -542,11 +542,12 @@ Proof.
   - pose proof (dec_vi_total s) as H. rewrite Ed in H. exact H.
 Qed.
 
+Definition shorter {A : Type} (s : bytes) (x : A * bytes) : Prop := (length (snd x) <= length s)%nat.
+Arguments shorter {A} s x /.
+
 Module V5.
 Import MV.Base.Utf8 MV.Model.CodecV5.
 
-Definition shorter {A : Type} (s : bytes) (x : A * bytes) : Prop := (length (snd x) <= length s)%nat.
-Arguments shorter {A} s x /.
 
 Lemma g_dec_bool s : good (A := bool * bytes) (shorter s) (dec_bool s).
 Proof.
@@ -675,3 +676,264 @@ Lemma decode_packet_connect src :
 Proof. reflexivity. Qed.
 
 End V5.
+
+Module V3.
+Import MV.Base.Utf8 MV.Model.CodecV3.
+
+Lemma g_dec_u16 s : no_proto_failure (dec_u16 s).
+Proof.
+  unfold no_proto_failure, dec_u16. destruct (2 <=? len s) eqn:E; cbn [ensure bind good]; [|err_ok].
+  destruct s as [|a [|b r]]; try (unfold len in E; cbn [length] in E; lia). exact I.
+Qed.
+
+Lemma g_dec_bytes s : no_proto_failure (dec_bytes s).
+Proof.
+  unfold no_proto_failure, dec_bytes. gbind g_dec_u16. intros [n r] _. cbv beta iota. gensure. exact I.
+Qed.
+
+Lemma g_dec_string s : no_proto_failure (dec_string s).
+Proof.
+  unfold no_proto_failure, dec_string. gbind g_dec_bytes. intros [b r] _. cbv beta iota.
+  destruct (utf8_valid b); cbn [good]; [exact I | err_ok].
+Qed.
+
+Lemma g_qos_of_n v : no_proto_failure (qos_of_n v).
+Proof.
+  unfold no_proto_failure.
+  destruct v as [|[[?|?|]|[?|?|]|]]; cbn [qos_of_n good]; try exact I; err_ok.
+Qed.
+
+Lemma g_decode_last_will flags src : no_proto_failure (decode_last_will flags src).
+Proof.
+  unfold no_proto_failure, decode_last_will. destruct (has_bit flags CF_WILL); [|exact I].
+  gbind g_dec_string. intros [topic r] _. cbv beta iota.
+  gbind g_dec_bytes. intros [msg r1] _. cbv beta iota.
+  gbind g_qos_of_n. intros q _. exact I.
+Qed.
+
+Lemma connect_decode_good body :
+  10 <= len body -> firstn 7 body = [0; 4; 77; 81; 84; 84; 4] ->
+  no_proto_failure (decode_connect_packet body).
+Proof.
+  intros Hl Hf. unfold no_proto_failure, decode_connect_packet.
+  replace (10 <=? len body) with true by lia. cbn [ensure bind].
+  destruct body as [|l0 [|l1 [|m0 [|m1 [|m2 [|m3 [|lvl [|flags [|k0 [|k1 r]]]]]]]]]];
+    try (unfold len in Hl; cbn [length] in Hl; lia).
+  cbn [firstn] in Hf. injection Hf as -> -> -> -> -> -> ->.
+  cbn [get_u16 bind]. change (0 * 256 + 4 =? 4) with true. cbv iota.
+  unfold slice_to, advance.
+  replace (len (77 :: 81 :: 84 :: 84 :: 4 :: flags :: k0 :: k1 :: r) <? 4) with false
+    by (unfold len; cbn [length]; lia).
+  change (N.to_nat 4) with 4%nat. cbn [firstn skipn bind].
+  change (bytes_eqb [77; 81; 84; 84] MQTT) with true. cbn [ensure bind get_u8].
+  change (4 =? MQTT_LEVEL_3) with true. cbn [ensure bind].
+  gensure.
+  gbind g_dec_u16. intros [ka r1] _. cbv beta iota.
+  gbind g_dec_string. intros [cid r2] _. cbv beta iota.
+  gensure.
+  gbind g_decode_last_will. intros [lw r3] _. cbv beta iota.
+  eapply good_bind with (P := fun _ => True).
+  { destruct (has_bit flags CF_USERNAME); [|exact I]. gbind g_dec_string. intros [u r'] _. exact I. }
+  intros [un r4] _. cbv beta iota.
+  eapply good_bind with (P := fun _ => True).
+  { destruct (has_bit flags CF_PASSWORD); [|exact I]. gbind g_dec_bytes. intros [u r'] _. exact I. }
+  intros [pw r5] _. exact I.
+Qed.
+
+Lemma connect_decode_short body : len body < 10 -> decode_connect_packet body = Err DE_InvalidLength.
+Proof. intros H. unfold decode_connect_packet. replace (10 <=? len body) with false by lia. reflexivity. Qed.
+
+Lemma decode_packet_connect src : decode_packet S_CONNECT src = decode_connect_packet src.
+Proof. reflexivity. Qed.
+
+End V3.
+
+(* the CONNECT frame body the decoders cut out of the buffer starts with the seven bytes the
+   sniffer has checked: [k + 1] bytes of fixed header are skipped, [n] bytes are taken *)
+Lemma sniff_connect_body b v rl k n body :
+  sniff b = Ok (Some v) ->
+  dec_vi_opt (tl b) = Ok (Some (rl, k)) ->
+  body = firstn n (skipn (N.to_nat (k + 1)) b) ->
+  (7 <= length body)%nat ->
+  firstn 7 body = [0; 4] ++ S_MQTT ++ [v].
+Proof.
+  intros Hs Hd -> Hl. pose proof (sniff_version_4_or_5 _ _ Hs) as Hv.
+  apply (sniff_routes b v Hv) in Hs as (rl' & k' & Hh & Hd' & Hf).
+  rewrite Hd in Hd'. injection Hd' as <- <-.
+  destruct b as [|b0 t]; [discriminate|]. cbn [tl] in *.
+  replace (N.to_nat (k + 1)) with (S (N.to_nat k)) in * by lia. cbn [skipn] in *.
+  rewrite firstn_firstn. rewrite firstn_length in Hl.
+  replace (Nat.min 7 n) with 7%nat by lia. exact Hf.
+Qed.
+
+(* item 5, v5: offsets as Codec::decode computes them (remaining length rl, k var-int bytes) *)
+Lemma sniff_agrees_with_decoder b rl k body :
+  sniff b = Ok (Some 5) ->
+  dec_vi_opt (tl b) = Ok (Some (rl, k)) ->
+  body = firstn (N.to_nat rl) (skipn (N.to_nat (k + 1)) b) ->
+  10 <= len body ->
+  firstn 7 body = [0; 4; 77; 81; 84; 84; 5] /\
+  no_proto_failure (CodecV5.connect_decode body).
+Proof.
+  intros Hs Hd Hb Hl.
+  assert (Hf : firstn 7 body = [0; 4; 77; 81; 84; 84; 5]).
+  { apply (sniff_connect_body b 5 rl k (N.to_nat rl) body Hs Hd Hb). unfold len in Hl. lia. }
+  split; [exact Hf|]. apply V5.connect_decode_good; assumption.
+Qed.
+
+(* item 5, v3 *)
+Lemma sniff_agrees_with_decoder_v3 b rl k body :
+  sniff b = Ok (Some 4) ->
+  dec_vi_opt (tl b) = Ok (Some (rl, k)) ->
+  body = firstn (N.to_nat rl) (skipn (N.to_nat (k + 1)) b) ->
+  10 <= len body ->
+  firstn 7 body = [0; 4; 77; 81; 84; 84; 4] /\
+  no_proto_failure (CodecV3.decode_connect_packet body).
+Proof.
+  intros Hs Hd Hb Hl.
+  assert (Hf : firstn 7 body = [0; 4; 77; 81; 84; 84; 4]).
+  { apply (sniff_connect_body b 4 rl k (N.to_nat rl) body Hs Hd Hb). unfold len in Hl. lia. }
+  split; [exact Hf|]. apply V3.connect_decode_good; assumption.
+Qed.
+
+(* item 5 in the "b = 16 :: vi ++ body ++ rest" form (whatever the var-int value is) *)
+Lemma sniff_frame_body vi rl body rest v :
+  is_varint vi rl -> sniff (S_CONNECT :: vi ++ body ++ rest) = Ok (Some v) -> 7 <= len body ->
+  firstn 7 body = [0; 4] ++ S_MQTT ++ [v].
+Proof.
+  intros Hvi Hs Hl.
+  apply (sniff_connect_body _ v rl (len vi) (length body) body Hs).
+  - cbn [tl]. unfold dec_vi_opt. rewrite (is_varint_app _ _ _ Hvi). rewrite len_app. do 3 f_equal. lia.
+  - replace (N.to_nat (len vi + 1)) with (S (length vi)) by (unfold len; lia). cbn [skipn].
+    rewrite skipn_app, skipn_all, Nat.sub_diag. cbn [skipn app].
+    rewrite firstn_app, firstn_all, Nat.sub_diag. cbn [firstn]. rewrite app_nil_r. reflexivity.
+  - unfold len in Hl. lia.
+Qed.
+
+Lemma sniff_agrees_with_decoder_frame vi rl body rest :
+  is_varint vi rl -> sniff (16 :: vi ++ body ++ rest) = Ok (Some 5) -> 10 <= len body ->
+  no_proto_failure (CodecV5.connect_decode body).
+Proof.
+  intros Hvi Hs Hl. apply V5.connect_decode_good; [exact Hl|].
+  apply (sniff_frame_body vi rl body rest 5 Hvi Hs). lia.
+Qed.
+
+Lemma sniff_agrees_with_decoder_frame_v3 vi rl body rest :
+  is_varint vi rl -> sniff (16 :: vi ++ body ++ rest) = Ok (Some 4) -> 10 <= len body ->
+  no_proto_failure (CodecV3.decode_connect_packet body).
+Proof.
+  intros Hvi Hs Hl. apply V3.connect_decode_good; [exact Hl|].
+  apply (sniff_frame_body vi rl body rest 4 Hvi Hs). lia.
+Qed.
+
+(* the whole first call of the v5 Codec::decode on a buffer the sniffer routed to v5: whatever it
+   returns (need more / MaxSizeExceeded / a packet / some other decode error), it is never
+   InvalidProtocol, never UnsupportedProtocolLevel and never a panic *)
+Lemma sniff_agrees_with_decode_step_v5 max_in min_chunk npi b :
+  sniff b = Ok (Some 5) ->
+  no_proto_failure (fst (fst (fst (CodecV5.decode_step max_in min_chunk npi CodecV5.FrameHeader b)))).
+Proof.
+  intros Hs. pose proof Hs as Hr. apply (sniff_routes b 5 (or_intror eq_refl)) in Hr as (rl & k & Hh & Hd & _).
+  destruct b as [|b0 t]; [discriminate|]. cbn [hd_error tl] in Hh, Hd. injection Hh as ->.
+  destruct t as [|t0 t']; [vm_compute in Hd; discriminate|].
+  cbn [CodecV5.decode_step CodecV5.step_frame_header]. rewrite Hd.
+  destruct (negb (max_in =? 0) && (max_in <? rl)).
+  { unfold CodecV5.dret. cbn [fst]. unfold no_proto_failure. cbn [good]. err_ok. }
+  change (CodecV5.is_publish S_CONNECT) with false. cbv iota.
+  unfold CodecV5.step_frame.
+  set (src' := skipn (N.to_nat (k + 1)) (S_CONNECT :: t0 :: t')).
+  destruct (len src' <? rl). { unfold CodecV5.dret. cbn [fst]. exact I. }
+  unfold CodecV5.split_to. cbv iota.
+  set (body := firstn (N.to_nat rl) src').
+  assert (G : no_proto_failure (CodecV5.connect_decode body)).
+  { destruct (N.ltb_spec (len body) 10) as [Hlt|Hge].
+    - rewrite V5.connect_decode_short by exact Hlt. unfold no_proto_failure. cbn [good]. err_ok.
+    - apply (sniff_agrees_with_decoder _ rl k body Hs Hd eq_refl Hge). }
+  rewrite V5.decode_packet_connect. unfold no_proto_failure in *.
+  destruct (CodecV5.connect_decode body) as [c|e|s]; cbn [bind CodecV5.lift_err good] in *;
+    unfold CodecV5.dret; cbn [fst good]; exact G.
+Qed.
+
+(* same for the v3 codec *)
+Lemma sniff_agrees_with_decode_step_v3 max_size min_chunk b :
+  sniff b = Ok (Some 4) ->
+  no_proto_failure (fst (fst (CodecV3.decode_step max_size min_chunk CodecV3.FrameHeader b))).
+Proof.
+  intros Hs. pose proof Hs as Hr. apply (sniff_routes b 4 (or_introl eq_refl)) in Hr as (rl & k & Hh & Hd & _).
+  destruct b as [|b0 t]; [discriminate|]. cbn [hd_error tl] in Hh, Hd. injection Hh as ->.
+  cbn [CodecV3.decode_step]. unfold CodecV3.step_frame_header.
+  destruct (len (S_CONNECT :: t) <? 2); [exact I|]. rewrite Hd.
+  destruct (negb (max_size =? 0) && (max_size <? rl)).
+  { cbn [fst]. unfold no_proto_failure. cbn [good]. err_ok. }
+  pose proof (dec_vi_opt_some _ _ _ Hd) as (_ & Hk & _).
+  unfold CodecV3.advance.
+  replace (len (S_CONNECT :: t) <? k + 1) with false by (rewrite len_cons; lia).
+  change (CodecV3.is_publish S_CONNECT) with false. cbv iota.
+  set (src' := skipn (N.to_nat (k + 1)) (S_CONNECT :: t)).
+  destruct (len src' <? rl) eqn:El; [exact I|].
+  unfold CodecV3.step_frame. rewrite El. unfold CodecV3.split_at.
+  set (body := firstn (N.to_nat rl) src').
+  assert (G : no_proto_failure (CodecV3.decode_connect_packet body)).
+  { destruct (N.ltb_spec (len body) 10) as [Hlt|Hge].
+    - rewrite V3.connect_decode_short by exact Hlt. unfold no_proto_failure. cbn [good]. err_ok.
+    - apply (sniff_agrees_with_decoder_v3 _ rl k body Hs Hd eq_refl Hge). }
+  rewrite V3.decode_packet_connect. unfold no_proto_failure in *.
+  destruct (CodecV3.decode_connect_packet body) as [c|e|s]; cbn [fst good] in *; exact G.
+Qed.
+
+(* ------------------------------------------------------------------ 2 (sharper): exactly which bytes are looked at *)
+(* the type byte and the var-int (k bytes) decide alone when the var-int is incomplete or bad;
+   otherwise the answer is a function of the first 1 + k + 7 bytes *)
+Lemma sniff_varint_incomplete b : dec_vi_opt (tl b) = Ok None -> sniff b = Ok None.
+Proof.
+  destruct b as [|b0 t]; [reflexivity|]. cbn [tl]. intros H. rewrite sniff_cons.
+  apply dec_vi_opt_none in H as (_ & -> & _). reflexivity.
+Qed.
+
+Lemma sniff_varint_err b e : dec_vi_opt (tl b) = Err e -> sniff b = Err e.
+Proof.
+  destruct b as [|b0 t]; [intros H; vm_compute in H; discriminate|]. cbn [tl]. intros H.
+  rewrite sniff_cons. unfold dec_vi_opt in H. unfold sniff_after.
+  destruct (dec_vi t) as [[v r]|e'|p]; [discriminate| | discriminate].
+  destruct (e' =? DE_MalformedPacket); [discriminate | injection H as ->; reflexivity].
+Qed.
+
+Lemma sniff_looks_at_header b rl k :
+  dec_vi_opt (tl b) = Ok (Some (rl, k)) -> sniff b = sniff (firstn (N.to_nat (1 + k + 7)) b).
+Proof.
+  destruct b as [|b0 t]; [intros H; vm_compute in H; discriminate|]. cbn [tl]. intros H.
+  unfold dec_vi_opt in H. destruct (dec_vi t) as [[v r]|e'|p'] eqn:Ed;
+    [| destruct (e' =? DE_MalformedPacket); discriminate | discriminate].
+  injection H as -> <-. apply dec_vi_ok_inv in Ed as (p & -> & _ & Hall).
+  replace (N.to_nat (1 + (len (p ++ r) - len r) + 7)) with (S (length p + 7))
+    by (rewrite len_app; unfold len; lia).
+  cbn [firstn]. rewrite firstn_app_2. rewrite !sniff_cons, !Hall. unfold sniff_after.
+  destruct (b0 =? S_CONNECT); [|reflexivity]. split7 r; reflexivity.
+Qed.
+
+(* ------------------------------------------------------------------ audit *)
+Print Assumptions sniff_char.
+Print Assumptions sniff_total.
+Print Assumptions sniff_consumes_nothing.
+Print Assumptions sniff_depends_on_12.
+Print Assumptions sniff_consumes_nothing_11_refuted.
+Print Assumptions sniff_looks_at_header.
+Print Assumptions sniff_prefix_stable.
+Print Assumptions sniff_decided_stable.
+Print Assumptions sniff_none_iff.
+Print Assumptions sniff_none_undecided.
+Print Assumptions sniff_none_undecided_all.
+Print Assumptions sniff_none_short_sharp.
+Print Assumptions sniff_some_iff.
+Print Assumptions sniff_routes.
+Print Assumptions sniff_routes_v3.
+Print Assumptions sniff_routes_v5.
+Print Assumptions sniff_version_4_or_5.
+Print Assumptions sniff_accepts_encoded.
+Print Assumptions sniff_err_cases.
+Print Assumptions sniff_agrees_with_decoder.
+Print Assumptions sniff_agrees_with_decoder_v3.
+Print Assumptions sniff_agrees_with_decoder_frame.
+Print Assumptions sniff_agrees_with_decoder_frame_v3.
+Print Assumptions sniff_agrees_with_decode_step_v5.
+Print Assumptions sniff_agrees_with_decode_step_v3.
